@@ -1,3 +1,4 @@
+import TinysetModel.Proofs.ProgramRefine
 import TinysetModel.Proofs.PropsAux
 import TinysetModel.Proofs.Demo
 import TinysetModel.Proofs.TotalOpsExtend
@@ -196,6 +197,28 @@ theorem diff_ref_returns_u64 {D : Type} (g : Rng D) (fuel : Nat) {a b : Rp} (wa 
     ∃ r d', diffRef cfg64 g (fuel + 2) a b d = .ok (r, d') ∧ WF cfg64 r ∧
       (∀ x, x ∈ elems cfg64 r ↔ (x ∈ elems cfg64 a ∧ x ∉ elems cfg64 b)) :=
   diffRef_total_u64 g fuel wa wb ha hsize d
+
+/-! ### the operators inside programs over several sets -/
+
+/-- any program in which the four operator forms are interleaved with every other operation, over any number of
+sets (operands in any layout, any relative size, also `&a | &a`, `&a - &a`), every generator outcome: each result
+holds exactly the union / difference of what its operands held at that moment, the borrowed operands keep their
+members, and the allocator calls of the whole run are legal and leave nothing live (generic in the set type) -/
+theorem operators_in_programs {c : Cfg} {D : Type} (ok : CfgOK c) (fresh : Bool) (g : Rng D) (fuel n : Nat) (ops : List POp)
+    (hr : ∀ op ∈ ops, op.InRange c.W) {s' : Slots} {d d' : D} {evs : List Ev}
+    (h : prun c fresh g fuel (List.replicate n .empty) ops d = .ok ((s', evs), d')) :
+    (∀ i, i < n → WF c (s'.get i) ∧ ∀ x, x ∈ elems c (s'.get i) ↔ specRunP n (fun _ => none') ops i x) ∧
+    runEv [] (evs ++ dropAll c s') = some [] :=
+  program_correct_and_balanced ok fresh g fuel n ops hr h
+/-- what the ideal program says about the operator steps -/
+theorem ideal_union (m : Ideal) (k i j x : Nat) : pspecCore m (.uniRef k i j) k x ↔ (m i x ∨ m j x) := by
+  simp [pspecCore, Ideal.upd]
+theorem ideal_difference (m : Ideal) (k i j x : Nat) : pspecCore m (.difRef k i j) k x ↔ (m i x ∧ ¬ m j x) := by
+  simp [pspecCore, Ideal.upd]
+/-- a borrowed operand (a slot other than the result's) is unchanged -/
+theorem ideal_operand_unchanged (m : Ideal) (k i j l : Nat) (h : l ≠ k) :
+    pspecCore m (.uniRef k i j) l = m l ∧ pspecCore m (.difRef k i j) l = m l := by
+  simp [pspecCore, Ideal.upd, h]
 
 end C09
 
